@@ -183,6 +183,40 @@ Definition flips_lost_on_binary_grid (cases : list vcase) : list nat :=
           && negb (model_accepts {| r_step := SDecimal; r_finite_guard := g |} (option_map mk_def p) j)
           && acceptsb RBinary (option_map mk_def p) j)) cases 0.
 
+(* ------------------------------------------------------------------ playback of an accepted sequence *)
+
+(* (port, the values of an accepted PATCH sequence, the driver calls observed while the sequence played once) *)
+Definition pcase := (pdesc * list json * list effect)%type.
+
+(* every element goes through transform_and_write_value: what the model delivers, element by element, in order
+   (an element whose transform raises produces no call) *)
+Definition play_expected (d : portdef) (ws : list pyval) : list effect :=
+  flat_map (fun v => snd (transform_and_write d v)) ws.
+
+Definition bad_play (cases : list pcase) : list nat :=
+  mismatches (fun '(p, vs, es) =>
+    match all_py vs with
+    | Some ws => list_eqb effect_eqb (play_expected (mk_def p) ws) es
+    | None => false
+    end) cases 0.
+
+(* specification: the driver receives coerce (transform v) for every element whose transform yields a value, in order *)
+Fixpoint play_spec_ok (d : portdef) (ws : list pyval) (es : list effect) : bool :=
+  match ws with
+  | [] => match es with [] => true | _ => false end
+  | v :: ws' =>
+      if deliverable d v && dumps_ok v then
+        match es with
+        | DriverWrite (Some w) :: es' => delivered_ok d v w && play_spec_ok d ws' es'
+        | _ => false
+        end
+      else play_spec_ok d ws' es
+  end.
+
+Definition bad_play_spec (cases : list pcase) : list nat :=
+  mismatches (fun '(p, vs, es) =>
+    match all_py vs with Some ws => play_spec_ok (mk_def p) ws es | None => true end) cases 0.
+
 (* tie of Repr.v to CPython: (float, digits N, exponent x) with repr(float) = N * 10^x, N not divisible by 10 *)
 Fixpoint strip10 (fuel : nat) (N x : Z) : Z * Z :=
   match fuel with
